@@ -49,7 +49,11 @@ except ImportError:
 
 @builtinify
 def Ord(c):
-    return c if PYTHON3 else ord(c)
+    if PYTHON3:
+        # Indexing bytes gives an int; reading one byte from a binary
+        # file gives bytes of length one.
+        return c if isinstance(c, int) else c[0]
+    return ord(c)
 
 
 TYPE_NULL = "0"
@@ -452,6 +456,9 @@ class _Unmarshaller:
         c = self._read(1)
         if not c:
             raise EOFError
+        if PYTHON3 and isinstance(c, bytes):
+            # A file opened in binary mode gives bytes; type codes are str.
+            c = chr(c[0])
         try:
             return self.dispatch[c](self)
         except KeyError:
@@ -1041,6 +1048,14 @@ version = 1
 @builtinify
 def dump(x, f, version=version, python_version=None):
     # XXX 'version' is ignored, we always dump in a version-0-compatible format
+    if PYTHON3:
+        # The marshaller produces str pieces; dumps() knows how to turn
+        # these into the bytes that a binary file wants.
+        if python_version is None:
+            f.write(dumps(x, version))
+        else:
+            f.write(dumps(x, version, python_version))
+        return
     m = _Marshaller(f.write, python_version)
     m.dump(x)
 
